@@ -252,4 +252,303 @@ theorem pathSimplify_abs (t : Bytes) :
   simp only [splitOn_cons_sep]
   simp
 
+/-! ### relative inputs: the machine's full invariant -/
+
+/-- the stack is clean, and a path that is still relative has its head segment on the stack -/
+def SimpInv (st : SimpSt) : Prop := AllClean st.stack ∧ (st.rel = true → st.stack ≠ [])
+
+theorem pop_inv {st : SimpSt} (h : SimpInv st) : SimpInv st.pop := by
+  refine ⟨pop_clean h.1, ?_⟩
+  unfold SimpSt.pop
+  split
+  · simp
+  · rename_i hl; intro _; simpa using hl
+
+theorem push_inv {st : SimpSt} {seg : Bytes} (h : SimpInv st) (hc : Clean seg) : SimpInv (st.push seg) :=
+  ⟨push_clean h.1 hc, by intro _; simp [SimpSt.push]⟩
+
+theorem simpMid_inv {st : SimpSt} {seg : Bytes} (h : SimpInv st) (hs : slash ∉ seg) :
+    SimpInv (simpMid st seg) := by
+  unfold simpMid
+  split
+  · exact h
+  · rename_i h1
+    split
+    · exact pop_inv h
+    · rename_i h2
+      exact push_inv h ⟨fun e => h1 (Or.inl e), fun e => h1 (Or.inr e), h2, hs⟩
+
+theorem foldl_simpMid_inv (segs : List Bytes) : ∀ {st : SimpSt}, SimpInv st →
+    (∀ seg ∈ segs, slash ∉ seg) → SimpInv (segs.foldl simpMid st) := by
+  induction segs with
+  | nil => intro st h _; simpa
+  | cons x xs ih =>
+    intro st h hn
+    simp only [List.foldl_cons]
+    exact ih (simpMid_inv h (hn x (by simp))) (fun s hs => hn s (by simp [hs]))
+
+theorem simpLast_inv {st : SimpSt} {seg : Bytes} (h : SimpInv st) (hs : slash ∉ seg) :
+    SimpInv (simpLast st seg).1 := by
+  unfold simpLast
+  split
+  · exact h
+  · rename_i h1
+    split
+    · exact pop_inv h
+    · rename_i h2
+      exact push_inv h ⟨fun e => h1 (Or.inl e), fun e => h1 (Or.inr e), h2, hs⟩
+
+theorem simpRun_spec2 {st : SimpSt} {segs : List Bytes} (hne : segs ≠ [])
+    (h : SimpInv st) (hn : ∀ seg ∈ segs, slash ∉ seg) :
+    ∃ (st' : SimpSt) (tr : Bool), SimpInv st' ∧ simpRun st segs = st'.render tr := by
+  unfold simpRun
+  cases hl : segs.getLast? with
+  | none => simp [List.getLast?_eq_none_iff] at hl; exact absurd hl hne
+  | some last =>
+    have hlast : last ∈ segs := List.mem_of_getLast? hl
+    have hmid : ∀ seg ∈ segs.dropLast, slash ∉ seg :=
+      fun s hs => hn s (List.dropLast_subset _ hs)
+    exact ⟨(simpLast (segs.dropLast.foldl simpMid st) last).1,
+           (simpLast (segs.dropLast.foldl simpMid st) last).2,
+           simpLast_inv (foldl_simpMid_inv _ h hmid) (hn last hlast), by simp⟩
+
+theorem join_head_of_clean {s0 : Bytes} {rest : List Bytes} (h0 : s0 ≠ []) :
+    (join slash (s0 :: rest)).head? = s0.head? := by
+  cases s0 with
+  | nil => exact absurd rfl h0
+  | cons a as => cases rest <;> simp [join]
+
+/-- a rendered state that is still relative does not start with '/' -/
+theorem render_rel_head {st : SimpSt} (h : SimpInv st) (hr : st.rel = true) (tr : Bool) :
+    (st.render tr).head? ≠ some slash := by
+  have hne := h.2 hr
+  cases hst : st.stack with
+  | nil => exact absurd hst hne
+  | cons s0 rest =>
+    have hc : Clean s0 := h.1 s0 (by simp [hst])
+    have hh : s0.head? ≠ some slash := by
+      intro e
+      cases s0 with
+      | nil => simp at e
+      | cons a as => simp at e; exact hc.2.2.2 (by simp [e])
+    have hj := join_head_of_clean (rest := rest) hc.1
+    have hjne : join slash (s0 :: rest) ≠ [] := by
+      intro e; rw [e] at hj; cases s0 with
+      | nil => exact hc.1 rfl
+      | cons a as => simp at hj
+    unfold SimpSt.render
+    simp only [hr, hst, ↓reduceIte, List.nil_append]
+    split
+    · rw [List.head?_append, hj]
+      cases s0 with
+      | nil => exact absurd rfl hc.1
+      | cons a as => simpa using hh
+    · rw [hj]; exact hh
+
+theorem pathSimplify_rel {s f : Bytes} {rest : List Bytes} (hs : s ≠ [])
+    (hsp : splitOn slash s = f :: rest) (hf : f ≠ []) :
+    pathSimplify s =
+      (match rest with
+       | [] => if f = segDot ∨ f = segDotDot then [] else f
+       | _ => if f = segDot ∨ f = segDotDot then simpRun { rel := false, stack := [] } rest
+              else simpRun { rel := true, stack := [f] } rest) := by
+  cases s with
+  | nil => exact absurd rfl hs
+  | cons x t =>
+    cases rest with
+    | nil => unfold pathSimplify; simp only [hsp, hf, if_false]
+    | cons r rs => unfold pathSimplify; simp only [hsp, hf, if_false]
+
+/-- whenever the result of buffer_path_simplify() starts with '/', it is canonical -
+    also for inputs that do not start with '/' ("a/../../etc" becomes "/etc") -/
+theorem pathSimplify_head_canonical (s : Bytes) (h : (pathSimplify s).head? = some slash) :
+    CanonicalAbs (pathSimplify s) := by
+  cases s with
+  | nil => simp [pathSimplify] at h
+  | cons x t =>
+    by_cases hx : x = slash
+    · subst hx
+      rw [pathSimplify_abs]
+      obtain ⟨st', tr, hc, hrel, heq⟩ :=
+        simpRun_spec (st := { rel := false, stack := [] }) (segs := splitOn slash t)
+          (splitOn_ne_nil _ _) (by intro seg hs; simp at hs) (splitOn_mem_nosep _ _)
+      rw [heq]
+      exact render_abs_canonical (hrel rfl) hc tr
+    · have hns := splitOn_mem_nosep slash (x :: t)
+      cases hsp : splitOn slash (x :: t) with
+      | nil => exact absurd hsp (splitOn_ne_nil _ _)
+      | cons f rest =>
+        rw [hsp] at hns
+        have hfns : slash ∉ f := hns f (by simp)
+        have hrns : ∀ seg ∈ rest, slash ∉ seg := fun s hs => hns s (by simp [hs])
+        have hfne : f ≠ [] := by
+          intro e
+          have hj := join_splitOn slash (x :: t)
+          rw [hsp, e] at hj
+          cases rest with
+          | nil => simp [join] at hj
+          | cons r rs => simp [join] at hj; exact hx hj.1.symm
+        have key := pathSimplify_rel (s := x :: t) (by simp) hsp hfne
+        rw [key] at h ⊢
+        cases rest with
+        | nil =>
+          simp only at h ⊢
+          split at h
+          · simp at h
+          · exfalso
+            cases f with
+            | nil => exact hfne rfl
+            | cons a as => simp at h; exact hfns (by simp [h])
+        | cons r rs =>
+          simp only at h ⊢
+          split
+          · rename_i hd
+            obtain ⟨st', tr, hc, hrel, heq⟩ :=
+              simpRun_spec (st := { rel := false, stack := [] }) (segs := r :: rs)
+                (by simp) (by intro seg hs; simp at hs) hrns
+            rw [heq]
+            exact render_abs_canonical (hrel rfl) hc tr
+          · rename_i hd
+            rw [if_neg hd] at h
+            have hcf : Clean f := ⟨hfne, fun e => hd (Or.inl e), fun e => hd (Or.inr e), hfns⟩
+            obtain ⟨st', tr, hinv, heq⟩ :=
+              simpRun_spec2 (st := { rel := true, stack := [f] }) (segs := r :: rs)
+                (by simp) ⟨by intro s hs; simp at hs; exact hs ▸ hcf, by simp⟩ hrns
+            rw [heq] at h ⊢
+            cases hr : st'.rel with
+            | false => exact render_abs_canonical hr hinv.1 tr
+            | true => exact absurd h (render_rel_head hinv hr tr)
+
+/-! ### idempotence -/
+
+theorem simpMid_push_clean {st : SimpSt} {seg : Bytes} (hc : Clean seg) : simpMid st seg = st.push seg := by
+  unfold simpMid
+  rw [if_neg (by rintro (e | e); exact hc.1 e; exact hc.2.1 e), if_neg hc.2.2.1]
+
+theorem foldl_simpMid_push (segs : List Bytes) : ∀ (st : SimpSt), AllClean segs →
+    segs.foldl simpMid st = { st with stack := st.stack ++ segs } := by
+  induction segs with
+  | nil => intro st _; simp
+  | cons x xs ih =>
+    intro st h
+    simp only [List.foldl_cons]
+    rw [simpMid_push_clean (h x (by simp)), ih _ (fun s hs => h s (by simp [hs]))]
+    simp [SimpSt.push]
+
+/-- a canonical absolute path is a fixed point of buffer_path_simplify() -/
+theorem pathSimplify_canonical_fix {r : Bytes} (h : CanonicalAbs r) : pathSimplify r = r := by
+  obtain ⟨stack, hc, hs⟩ := canonical_split h
+  obtain ⟨stack', hc', hr⟩ := h
+  have hhead : ∃ t, r = slash :: t := by
+    rcases hr with hr | ⟨_, hr⟩ <;> exact ⟨_, hr⟩
+  obtain ⟨t, ht⟩ := hhead
+  subst ht
+  rw [pathSimplify_abs]
+  rw [splitOn_cons_sep] at hs
+  unfold simpRun
+  rcases hs with hs | ⟨hne, hs⟩
+  · have hs' : splitOn slash t = stack ++ [[]] := by simpa using hs
+    rw [hs']
+    simp only [List.getLast?_append, List.getLast?_singleton, Option.some_or, List.dropLast_concat]
+    rw [foldl_simpMid_push _ _ hc]
+    simp only [simpLast, true_or, if_true, List.nil_append]
+    -- r = "/" ++ join stack ++ "/" (or "/" if the stack is empty)
+    have hj := join_splitOn slash t
+    rw [hs'] at hj
+    unfold SimpSt.render
+    by_cases he : stack = []
+    · subst he; simp [join] at hj ⊢; exact hj.symm ▸ rfl
+    · rw [join_append_empty slash stack he] at hj
+      simp [he, hj]
+  · have hs' : splitOn slash t = stack := by simpa using hs
+    rw [hs']
+    obtain ⟨init, last, hil⟩ : ∃ init last, stack = init ++ [last] :=
+      ⟨stack.dropLast, stack.getLast hne, (List.dropLast_concat_getLast hne).symm⟩
+    have hcl : Clean last := hc last (by simp [hil])
+    have hci : AllClean init := fun s hs => hc s (by simp [hil, hs])
+    rw [hil]
+    simp only [List.getLast?_append, List.getLast?_singleton, Option.some_or, List.dropLast_concat]
+    rw [foldl_simpMid_push _ _ hci]
+    have : simpLast { rel := false, stack := [] ++ init } last =
+        ({ rel := false, stack := init ++ [last] }, false) := by
+      unfold simpLast
+      rw [if_neg (by rintro (e | e); exact hcl.1 e; exact hcl.2.1 e), if_neg hcl.2.2.1]
+      simp [SimpSt.push]
+    rw [this]
+    have hj := join_splitOn slash t
+    rw [hs', hil] at hj
+    simp [SimpSt.render, hj]
+
+/-! ### lower-casing keeps a path canonical -/
+
+/-- a Boolean predicate that holds for 0..255 holds for every byte -/
+theorem byte_forall (P : UInt8 → Bool)
+    (h : ((List.range 256).all fun i => P (UInt8.ofNat i)) = true) (a : UInt8) : P a = true := by
+  rw [List.all_eq_true] at h
+  have := h a.toNat (by simp only [List.mem_range]; exact a.toNat_lt)
+  simpa using this
+
+theorem toLower_eq_dot {b : UInt8} (h : toLower b = dot) : b = dot := by
+  have := byte_forall (fun b => !(toLower b == dot) || b == dot) (by decide +kernel) b
+  simp only [Bool.or_eq_true, Bool.not_eq_true', beq_eq_false_iff_ne, beq_iff_eq] at this
+  rcases this with e | e
+  · exact absurd h e
+  · exact e
+
+theorem toLower_eq_slash {b : UInt8} (h : toLower b = slash) : b = slash := by
+  have := byte_forall (fun b => !(toLower b == slash) || b == slash) (by decide +kernel) b
+  simp only [Bool.or_eq_true, Bool.not_eq_true', beq_eq_false_iff_ne, beq_iff_eq] at this
+  rcases this with e | e
+  · exact absurd h e
+  · exact e
+
+theorem toLower_slash : toLower slash = slash := by decide
+
+theorem map_toLower_join (l : List Bytes) :
+    (join slash l).map toLower = join slash (l.map (·.map toLower)) := by
+  induction l with
+  | nil => simp [join]
+  | cons p ps ih =>
+    cases ps with
+    | nil => simp [join]
+    | cons q qs => simp only [join, List.map_append, List.map_cons, toLower_slash] at ih ⊢; rw [ih]
+
+theorem clean_map_toLower {seg : Bytes} (h : Clean seg) : Clean (seg.map toLower) := by
+  refine ⟨by simpa using h.1, ?_, ?_, ?_⟩
+  · intro e
+    cases seg with
+    | nil => simp [segDot] at e
+    | cons a as =>
+      cases as with
+      | nil => simp [segDot] at e; exact h.2.1 (by simp [segDot, toLower_eq_dot e])
+      | cons b bs => simp [segDot] at e
+  · intro e
+    cases seg with
+    | nil => simp [segDotDot] at e
+    | cons a as =>
+      cases as with
+      | nil => simp [segDotDot] at e
+      | cons b bs =>
+        cases bs with
+        | nil =>
+          simp [segDotDot] at e
+          exact h.2.2.1 (by simp [segDotDot, toLower_eq_dot e.1, toLower_eq_dot e.2])
+        | cons c cs => simp [segDotDot] at e
+  · intro hm
+    simp only [List.mem_map] at hm
+    obtain ⟨b, hb, e⟩ := hm
+    exact h.2.2.2 (toLower_eq_slash e ▸ hb)
+
+theorem canonical_map_toLower {r : Bytes} (h : CanonicalAbs r) : CanonicalAbs (r.map toLower) := by
+  obtain ⟨stack, hc, hr⟩ := h
+  refine ⟨stack.map (·.map toLower), ?_, ?_⟩
+  · intro seg hs
+    simp only [List.mem_map] at hs
+    obtain ⟨s0, hs0, e⟩ := hs
+    exact e ▸ clean_map_toLower (hc s0 hs0)
+  · rcases hr with hr | ⟨hne, hr⟩
+    · left; subst hr; simp [toLower_slash, map_toLower_join]
+    · right; subst hr
+      exact ⟨by simpa using hne, by simp [toLower_slash, map_toLower_join]⟩
+
 end LtVerif
